@@ -5,332 +5,10 @@
 // distribution pair, same seed, same parameters, same sequence of construct / param / reset / draw) and print
 // the produced numbers.  props/c20.py runs them first and puts the numbers ("tape") into the operation lines,
 // so that the Lean driver can reproduce fcppt's decorated sequence from the standard one.
-#include "common/vh.hpp"
-
-#include <fcppt/make_cref.hpp>
-#include <fcppt/make_ref.hpp>
-#include <fcppt/make_strong_typedef.hpp>
-#include <fcppt/reference_impl.hpp>
-#include <fcppt/strong_typedef.hpp>
-#include <fcppt/optional/object_impl.hpp>
-#include <fcppt/random/make_variate.hpp>
-#include <fcppt/random/variate.hpp>
-#include <fcppt/random/distribution/basic.hpp>
-#include <fcppt/random/distribution/make_basic.hpp>
-#include <fcppt/random/distribution/parameters/make_uniform_enum.hpp>
-#include <fcppt/random/distribution/parameters/make_uniform_enum_advanced.hpp>
-#include <fcppt/random/distribution/parameters/make_uniform_indices.hpp>
-#include <fcppt/random/distribution/parameters/make_uniform_indices_advanced.hpp>
-#include <fcppt/random/distribution/parameters/normal.hpp>
-#include <fcppt/random/distribution/parameters/uniform_int.hpp>
-#include <fcppt/random/distribution/parameters/uniform_int_wrapper.hpp>
-#include <fcppt/random/distribution/parameters/uniform_real.hpp>
-#include <fcppt/random/generator/basic_pseudo_impl.hpp>
-#include <fcppt/random/generator/minstd_rand.hpp>
-#include <fcppt/random/generator/mt19937.hpp>
-#include <fcppt/random/wrapper/make_uniform_container.hpp>
-#include <fcppt/random/wrapper/make_uniform_container_advanced.hpp>
-#include <fcppt/random/wrapper/uniform_container.hpp>
-#include <fcppt/type_iso/enum.hpp>
-#include <fcppt/type_iso/strong_typedef.hpp>
-
-#include <cstdint>
-#include <cstring>
-#include <deque>
-#include <optional>
-#include <random>
-#include <stdexcept>
-#include <string>
-#include <type_traits>
-#include <vector>
+#include "c20_common.hpp"
 
 namespace
 {
-struct bad_op : std::runtime_error
-{
-  bad_op() : std::runtime_error("bad-op") {}
-};
-
-// ---------------------------------------------------------------- result types
-enum class e1 { v0, fcppt_maximum = v0 };
-enum class e2 { v0, v1, fcppt_maximum = v1 };
-enum class e3 { v0, v1, v2, fcppt_maximum = v2 };
-enum class e4 { v0, v1, v2, v3, fcppt_maximum = v3 };
-enum class e5 { v0, v1, v2, v3, v4, fcppt_maximum = v4 };
-enum class e6 { v0, v1, v2, v3, v4, v5, fcppt_maximum = v5 };
-enum class e7 { v0, v1, v2, v3, v4, v5, v6, fcppt_maximum = v6 };
-enum class e8 { v0, v1, v2, v3, v4, v5, v6, v7, fcppt_maximum = v7 };
-enum class e9 { v0, v1, v2, v3, v4, v5, v6, v7, v8, fcppt_maximum = v8 };
-
-template <typename T>
-struct tag
-{
-};
-
-// shape<R>: how to build an R from its base value and how to print it, *without* fcppt::type_iso
-template <typename R, typename Enable = void>
-struct shape
-{
-  using base = R;
-  static R make(base const x) { return x; }
-  static base strip(R const &x) { return x; }
-  static std::string inner(base const x)
-  {
-    if constexpr (std::is_floating_point_v<R>)
-    {
-      using U = std::conditional_t<sizeof(R) == 4, std::uint32_t, std::uint64_t>;
-      U u;
-      std::memcpy(&u, &x, sizeof u);
-      return std::to_string(u);
-    }
-    else
-      return std::to_string(x);
-  }
-  static std::string print(R const &x) { return inner(x); }
-};
-
-template <typename T, typename Tag>
-struct shape<fcppt::strong_typedef<T, Tag>>
-{
-  using R = fcppt::strong_typedef<T, Tag>;
-  using base = typename shape<T>::base;
-  static R make(base const x) { return R{shape<T>::make(x)}; }
-  static base strip(R const &x) { return shape<T>::strip(x.get()); }
-  static std::string inner(base const x) { return shape<T>::inner(x); }
-  static std::string print(R const &x) { return "S(" + shape<T>::print(x.get()) + ")"; }
-};
-
-template <typename E>
-struct shape<E, std::enable_if_t<std::is_enum_v<E>>>
-{
-  using base = std::underlying_type_t<E>;
-  static E make(base const x) { return static_cast<E>(x); }
-  static base strip(E const x) { return static_cast<base>(x); }
-  static std::string inner(base const x) { return std::to_string(x); }
-  static std::string print(E const x) { return "E(" + std::to_string(static_cast<base>(x)) + ")"; }
-};
-
-template <typename T>
-struct st
-{
-  FCPPT_MAKE_STRONG_TYPEDEF(T, one);
-  FCPPT_MAKE_STRONG_TYPEDEF(one, two);
-};
-
-// ---------------------------------------------------------------- a non-standard engine / distribution pair
-// (the same two definitions exist in Lean: Spec/C20.lean `ctrEngine`, `modDist`)
-struct ctr_engine
-{
-  using result_type = std::uint32_t;
-  explicit ctr_engine(result_type const s) : s_{s} {}
-  result_type operator()() { return s_++; }
-  static constexpr result_type min() { return 0U; }
-  static constexpr result_type max() { return 0xFFFFFFFFU; }
-  result_type s_;
-};
-
-template <typename T>
-class mod_dist
-{
-public:
-  using result_type = T;
-  class param_type
-  {
-  public:
-    using distribution_type = mod_dist;
-    param_type(T const a, T const b) : a_{a}, b_{b} {}
-    [[nodiscard]] T a() const { return a_; }
-    [[nodiscard]] T b() const { return b_; }
-    friend bool operator==(param_type const &l, param_type const &r) { return l.a_ == r.a_ && l.b_ == r.b_; }
-  private:
-    T a_, b_;
-  };
-  explicit mod_dist(param_type const &p) : p_{p} {}
-  void reset() {}
-  [[nodiscard]] param_type param() const { return p_; }
-  void param(param_type const &p) { p_ = p; }
-  [[nodiscard]] T a() const { return p_.a(); }
-  [[nodiscard]] T b() const { return p_.b(); }
-  [[nodiscard]] T min() const { return p_.a(); }
-  [[nodiscard]] T max() const { return p_.b(); }
-  template <typename G>
-  T operator()(G &g)
-  {
-    unsigned long long const range =
-        static_cast<unsigned long long>(p_.b()) - static_cast<unsigned long long>(p_.a()) + 1ULL;
-    return static_cast<T>(static_cast<long long>(p_.a()) + static_cast<long long>(g() % range));
-  }
-  friend bool operator==(mod_dist const &l, mod_dist const &r) { return l.p_ == r.p_; }
-  friend bool operator!=(mod_dist const &l, mod_dist const &r) { return !(l.p_ == r.p_); }
-private:
-  param_type p_;
-};
-
-struct mod_wrapper
-{
-  template <typename Type>
-  struct apply
-  {
-    using type = mod_dist<Type>;
-  };
-};
-
-using fc_minstd = fcppt::random::generator::minstd_rand;
-using fc_mt = fcppt::random::generator::mt19937;
-using fc_ctr = fcppt::random::generator::basic_pseudo<ctr_engine>;
-
-// ---------------------------------------------------------------- segments
-std::vector<std::string> split(std::string const &s, char const c)
-{
-  std::vector<std::string> r;
-  std::size_t pos = 0;
-  while (true)
-  {
-    std::size_t const next = s.find(c, pos);
-    r.push_back(s.substr(pos, next == std::string::npos ? next : next - pos));
-    if (next == std::string::npos)
-      break;
-    pos = next + 1;
-  }
-  return r;
-}
-
-enum class act { new_, set, rst };
-
-struct seg
-{
-  act a;
-  std::string p1, p2; // parameters, textual
-  std::size_t n;
-};
-
-seg parse_seg(std::string const &t, bool const with_tape)
-{
-  auto const f = split(t, ':');
-  if (f.size() != (with_tape ? 5U : 4U))
-    throw bad_op{};
-  act const a = f[0] == "new" ? act::new_ : f[0] == "set" ? act::set : f[0] == "rst" ? act::rst : throw bad_op{};
-  std::size_t const n = std::stoul(f[3]);
-  if (n > 100000U)
-    throw bad_op{};
-  return seg{a, f[1], f[2], n};
-}
-
-template <typename B>
-B parse_base(std::string const &s)
-{
-  if constexpr (std::is_floating_point_v<B>)
-  {
-    using U = std::conditional_t<sizeof(B) == 4, std::uint32_t, std::uint64_t>;
-    unsigned long long const v = std::stoull(s);
-    U const u = static_cast<U>(v);
-    if (u != v)
-      throw bad_op{};
-    B r;
-    std::memcpy(&r, &u, sizeof r);
-    return r;
-  }
-  else if constexpr (std::is_signed_v<B>)
-  {
-    long long const v = std::stoll(s);
-    B const r = static_cast<B>(v);
-    if (static_cast<long long>(r) != v)
-      throw bad_op{};
-    return r;
-  }
-  else
-  {
-    unsigned long long const v = std::stoull(s);
-    B const r = static_cast<B>(v);
-    if (static_cast<unsigned long long>(r) != v)
-      throw bad_op{};
-    return r;
-  }
-}
-
-template <typename C>
-std::string join_str(C const &c)
-{
-  std::string r;
-  bool first = true;
-  for (auto const &e : c)
-  {
-    if (!first)
-      r += ',';
-    first = false;
-    r += e;
-  }
-  return r.empty() ? "-" : r;
-}
-
-// ---------------------------------------------------------------- distribution kinds
-struct k_int
-{
-  template <typename R, typename W>
-  using params = fcppt::random::distribution::parameters::uniform_int<R, W>;
-  template <typename B>
-  using stddist = std::uniform_int_distribution<B>;
-  template <typename P, typename R>
-  static P make(R const &a, R const &b) { return P{typename P::min{a}, typename P::max{b}}; }
-  template <typename D, typename R>
-  static D make2(R const &a, R const &b)
-  {
-    using P = typename D::param_type;
-    return D{typename P::min{a}, typename P::max{b}};
-  }
-  template <typename S>
-  static auto first(S const &d) { return d.a(); }
-  template <typename S>
-  static auto second(S const &d) { return d.b(); }
-  static constexpr bool has_ends = true;
-};
-
-struct no_wrapper
-{
-};
-
-struct k_real
-{
-  template <typename R, typename W>
-  using params = fcppt::random::distribution::parameters::uniform_real<R>;
-  template <typename B>
-  using stddist = std::uniform_real_distribution<B>;
-  template <typename P, typename R>
-  static P make(R const &a, R const &b) { return P{typename P::min{a}, typename P::sup{b}}; }
-  template <typename D, typename R>
-  static D make2(R const &a, R const &b)
-  {
-    using P = typename D::param_type;
-    return D{typename P::min{a}, typename P::sup{b}};
-  }
-  template <typename S>
-  static auto first(S const &d) { return d.a(); }
-  template <typename S>
-  static auto second(S const &d) { return d.b(); }
-  static constexpr bool has_ends = false;
-};
-
-struct k_normal
-{
-  template <typename R, typename W>
-  using params = fcppt::random::distribution::parameters::normal<R>;
-  template <typename B>
-  using stddist = std::normal_distribution<B>;
-  template <typename P, typename R>
-  static P make(R const &a, R const &b) { return P{typename P::mean{a}, typename P::stddev{b}}; }
-  template <typename D, typename R>
-  static D make2(R const &a, R const &b)
-  {
-    using P = typename D::param_type;
-    return D{typename P::mean{a}, typename P::stddev{b}};
-  }
-  template <typename S>
-  static auto first(S const &d) { return d.mean(); }
-  template <typename S>
-  static auto second(S const &d) { return d.stddev(); }
-  static constexpr bool has_ends = false;
-};
-
 // what can be read back from a distribution::basic built from the parameters p
 // (Parameters::convert_to, basic::param() const and basic::operator()(Rng &, param_type const &) cannot be
 // instantiated on the pinned tree - see notes/C20.md - so the parameters are read through convert_from and
@@ -533,28 +211,6 @@ std::string with_deco(std::vector<std::string> const &t, std::string const &deco
   throw bad_op{};
 }
 
-FCPPT_MAKE_STRONG_TYPEDEF(e3, strong_e3);
-
-template <typename F>
-std::string with_enum(unsigned const k, F const &f)
-{
-  switch (k)
-  {
-  case 1: return f(tag<e1>{});
-  case 2: return f(tag<e2>{});
-  case 3: return f(tag<e3>{});
-  case 4: return f(tag<e4>{});
-  case 5: return f(tag<e5>{});
-  case 6: return f(tag<e6>{});
-  case 7: return f(tag<e7>{});
-  case 8: return f(tag<e8>{});
-  case 9: return f(tag<e9>{});
-  default: throw bad_op{};
-  }
-}
-
-using uiw = fcppt::random::distribution::parameters::uniform_int_wrapper;
-
 std::string op_I(std::vector<std::string> const &t)
 {
   // I <T> <deco> <eng> <seed> <ctor> <seg>+
@@ -709,15 +365,6 @@ std::string op_XE(std::vector<std::string> const &t)
 }
 
 // ---------------------------------------------------------------- containers
-template <typename Cont>
-std::size_t index_of(Cont const &c, typename Cont::value_type const &r)
-{
-  for (std::size_t i = 0; i < c.size(); ++i)
-    if (&c[i] == &r)
-      return i;
-  return static_cast<std::size_t>(-1); // not an element of the container: never equals a model index
-}
-
 // Cont: possibly const container type; `advanced`: use the _advanced factories with wrapper W
 template <typename Cont, typename FG, typename W, bool advanced>
 std::string run_container(std::string const &seed, std::string const &elems, std::string const &segtok, bool const with_tape)
@@ -882,6 +529,7 @@ std::string op_G(std::vector<std::string> const &t, bool const fc)
   throw bad_op{};
 }
 
+
 // ---------------------------------------------------------------- oracle lines
 template <typename K, typename B>
 std::string std_engine(std::vector<std::string> const &t, std::size_t const eng_at)
@@ -931,6 +579,8 @@ std::string op_std(std::vector<std::string> const &t)
   }
   if (t[1] == "G")
     return op_G(std::vector<std::string>(t.begin() + 1, t.end()), false);
+  if (t[1] == "G2" || t[1] == "IS" || t[1] == "RS")
+    return c20_scripts(t);
   throw bad_op{};
 }
 
@@ -956,6 +606,8 @@ std::string handle(std::vector<std::string> const &t)
       return op_XE(t);
     if (t[0] == "XC")
       return op_XC(t);
+    if (t[0] == "XS" || t[0] == "IS" || t[0] == "RS" || t[0] == "XU" || t[0] == "G2" || t[0] == "TI" || t[0] == "SC")
+      return c20_scripts(t);
     if (t[0] == "std")
       return op_std(t);
     return "bad-op";
